@@ -52,6 +52,13 @@ def main():
         for f in os.listdir(root):
             if f not in payload['scripts'] and os.path.isfile(os.path.join(root, f)):
                 os.unlink(os.path.join(root, f))
+        # every case starts from the same files: an earlier case may have named one of them as its output file
+        # (`-o -5` writes the statistics over the script called -5)
+        for name in payload['scripts']:
+            with open(os.path.join(root, name), 'w') as f:
+                f.write(PROG % recfile)
+        with open(os.path.join(root, 'args.txt'), 'w') as f:
+            f.write('-v\n--outfile=stolen.prof\nalice\n')
         saved_argv, saved_path = sys.argv, list(sys.path)
         saved_builtin = builtins.__dict__.get('profile', None)
         had_builtin = 'profile' in builtins.__dict__
@@ -90,7 +97,7 @@ def main():
         rec = None
         if os.path.exists(recfile):
             rec = json.load(open(recfile))
-        files = sorted(f for f in os.listdir(root) if f not in payload['scripts'] and f != 'rec.json'
+        files = sorted(f for f in os.listdir(root) if f not in payload['scripts'] and f not in ('rec.json', 'args.txt')
                        and os.path.isfile(os.path.join(root, f)))
         stdout = so.getvalue()
         ns = None
